@@ -45,13 +45,72 @@ def tok_stream(ctx, h):
                            nontrivial=nt, concrete=False)
 
 
+def run_match_model(ctx, d, shards=14):
+    """runs the extracted whole-pipeline model on match.cases; large files are split into shards (case i goes to
+    shard i mod K, every shard gets the corpus blocks its cases refer to) that run in parallel; outputs are
+    re-interleaved, the oracle statistics summed"""
+    import shutil
+    lines = open(d + '/match.cases').read().split('\n')
+    ncases = sum(1 for l in lines if l.startswith('CASE '))
+    if ncases < 200:
+        ctx.driver('match', d + '/match.cases', d + '/match.model', extra=[d, 'total'])
+        return
+    corp, cases, cur, kind = {}, [], None, None
+    for l in lines:
+        if l.startswith('CORPUS '):
+            cur, kind = [l], 'corpus'
+            cid = l.split()[1]
+        elif l.startswith('CASE '):
+            cur, kind = [l], 'case'
+            ccid = l.split()[1]
+        elif cur is not None:
+            cur.append(l)
+        if kind == 'corpus' and l.strip() == 'END':
+            corp[cid] = cur
+            cur, kind = None, None
+        elif kind == 'case' and l.strip() == 'ENDCASE':
+            cases.append((ccid, cur))
+            cur, kind = None, None
+    k = min(shards, max(1, ncases // 50))
+    jobs = []
+    for sh in range(k):
+        sd = os.path.join(d, 'shard%d' % sh)
+        os.makedirs(sd, exist_ok=True)
+        shutil.copy(d + '/unicode.digits', sd + '/unicode.digits')
+        have = set()
+        with open(sd + '/match.cases', 'w') as f:
+            for i in range(sh, len(cases), k):
+                cid, block = cases[i]
+                if cid not in have:
+                    have.add(cid)
+                    f.write('\n'.join(corp[cid]) + '\n')
+                f.write('\n'.join(block) + '\n')
+        jobs.append(('match', sd + '/match.cases', sd + '/match.model', [sd, 'total']))
+    ctx.drivers(jobs, timeout=7200)
+    outs = [[x for x in open(j[2]).read().split('\n')] for j in jobs]
+    merged = []
+    for i in range(len(cases)):
+        o = outs[i % k]
+        merged.append(o[i // k] if i // k < len(o) else '')
+    open(d + '/match.model', 'w').write('\n'.join(merged) + '\n')
+    tot = {}
+    for sh in range(k):
+        sp = os.path.join(d, 'shard%d' % sh, 'oracle_stats.txt')
+        if os.path.exists(sp):
+            for kv in open(sp).read().split():
+                a, b = kv.split('=')
+                tot[a] = tot.get(a, 0) + int(b)
+        shutil.rmtree(os.path.join(d, 'shard%d' % sh), ignore_errors=True)
+    open(d + '/oracle_stats.txt', 'w').write(' '.join('%s=%d' % kv for kv in tot.items()) + '\n')
+
+
 def match_stream(ctx, family):
     """whole-pipeline model (Match.v) vs Match on the family's inputs; go-diff scripts validated"""
     h = harness(ctx, 'match', [family])
     if not h:
         return None
     d = ctx.rundir
-    ctx.driver('match', d + '/match.cases', d + '/match.model', extra=[d, 'total'])
+    run_match_model(ctx, d)
     impl = open(d + '/match.impl').read().split('\n')
     model = open(d + '/match.model').read().split('\n')
     names = open(d + '/match.names').read().split('\n')
